@@ -68,7 +68,7 @@ CHECKS = {
   technique="Lean 4 proof (dispatcher for arbitrary reducers + per-class reducer lemmas) + dispatcher-proxy exploration"),
  "C08": dict(
   category="proof",
-  text="Lean 4 proof over programs REGENERATED from the source on every run: tools/py2lean/gen_effects.py lowers every reducer and view method of every shipped component class (316 methods; trait functions, component helpers, entity methods, properties, generators, ignore_rejected, NamedEventProvider and Stat/ActionStat arithmetic inlined) to an object-heap effect IR (Model/Effect.lean: deepcopy, allocation, load, store, non-deterministic control flow, abort for raise). Proofs/Effect.lean proves the effect checker sound: a program it accepts, started on ANY heap with ANY arguments, at EVERY point of the call (also where an exception ends it) has left every pre-existing object exactly as it was and has stored only into objects allocated during the call; a result derived fresh shares no object with anything that existed before. Props/C08_Effects*.lean run the checker inside the kernel on every generated program (one listed path-correlated method, AdeleStormComponent.use, is outside the discipline and decided by observation only). Also proved: the dispatcher's frame for an arbitrary reducer (Props/C08.lean). Repeatability (same in, same out) is observed on every reducer/view call harvested from real runs of all jobs (replayed twice on the same objects and once on deep copies) and holds by construction in the functional L2 models tied by C07/C09/C10. Each harvested call is also compared with its effect program: observed (entity, field) changes must be stores of the program, results derived fresh must share no mutable object (by identity) with the arguments or the component, fields the translator treats as immutable must hold immutable values.",
+  text="Lean 4 proof over programs REGENERATED from the source on every run: tools/py2lean/gen_effects.py lowers every reducer and view method of every shipped component class (316 methods; trait functions, component helpers, entity methods, properties, generators, ignore_rejected, NamedEventProvider and Stat/ActionStat arithmetic inlined) to an object-heap effect IR (Model/Effect.lean: deepcopy, allocation, load, store, non-deterministic control flow, abort for raise). Proofs/Effect.lean proves the effect checker sound: a program it accepts, started on ANY heap with ANY arguments, at EVERY point of the call (also where an exception ends it) has left every pre-existing object exactly as it was and has stored only into objects allocated during the call; a result derived fresh shares no object with anything that existed before. Props/C08_Effects*.lean run the checker inside the kernel on every generated program (316 of 316; no method is exempt: where a write is correlated with what a helper returned, the translator lowers the continuation once per return site and folds the constant test). Also proved: the dispatcher's frame for an arbitrary reducer (Props/C08.lean). Repeatability (same in, same out) is observed on every reducer/view call harvested from real runs of all jobs (replayed twice on the same objects and once on deep copies) and holds by construction in the functional L2 models tied by C07/C09/C10. Each harvested call is also compared with its effect program: observed (entity, field) changes must be stores of the program, results derived fresh must share no mutable object (by identity) with the arguments or the component, fields the translator treats as immutable must hold immutable values.",
   design_ref="DESIGN.md §4 C08, §9.7",
   note="Trusted: Lean kernel + standard axioms; the lowering Python AST -> effect IR (over-approximation, validated against every harvested call); CPython/pydantic deepcopy semantics (IsDeepCopy, observed by identity walks); static-type classification immutable/mutable (validated on harvested objects). Repeatability itself is observed, not proved, at the Python level.",
   technique="Lean 4 proof (sound effect checker + kernel evaluation on programs regenerated from the source) + correspondence on harvested calls"),
